@@ -100,7 +100,7 @@ CHECKS = {
             "TLA+ specification of packaging histories; TLC-enumerated histories replayed into the implementation; outcomes validated by TLC"),
     "C16": ("vmstack", "model_checking",
             "Static part: spec/VMStack.tla proves on every path of every function that TailCall(true) sits at operand height exactly 1 and "
-            "TailCall(false) at exactly 2 (no operand survives an iteration). Dynamic part: 54 tail-recursive shapes (^, ^f, ^~, bare ^ in nilary message-driven server loops, mutual "
+            "TailCall(false) at exactly 2 (no operand survives an iteration). Dynamic part: 59 tail-recursive shapes (^, ^f, ^~, bare ^ in nilary message-driven server loops, loop states rebuilt by spreads of union-typed sources, mutual "
             "recursion, tail calls inside nested blocks/branches/consequences, with and without a heap binary dropped per iteration) run "
             "on the real VM one instruction at a time at N=20 and 50N=1000; spec/VMTrace.tla validates both traces and spec/VMPeaks.tla "
             "judges that peak frames/locals/stack are equal at N and 50N and the heap stays bounded.",
